@@ -111,6 +111,15 @@ def one_case(ctx, rng, der, wd, force3d=False, unequal=False):
         sig = sym(rng.uniform(0.8, 1.1, size=(Kr, Kr)))
         rc = sym(rng.uniform(1.4, 2.5, size=(Kr, Kr))) * sig
         rc = np.minimum(rc, 0.95 * ra)
+    int_params = False
+    if model != "harmonic_hertz" and ra > 2.2 and (N + Kr + d) % 3 == 0:
+        # integer-valued parameter tables handed over as INTEGER arrays (np.array([[1, 1], [1, 2]]), r_c = 2): the same numbers, another dtype
+        int_params = True
+        eps_ = sym(rng.integers(1, 3, size=(Kr, Kr)).astype(float))
+        eps_ = np.rint(eps_ + 0.01)
+        sig = np.ones((Kr, Kr))
+        rc = np.full((Kr, Kr), 2.0)
+        ctx.count("integer_dtype_parameter_tables")
     par = {"eps": eps_, "sig": sig, "n": float(rng.choice([6, 8, 9.5, 10, 12])), "A": float(rng.uniform(0.5, 2.0)),
            "alpha": float(rng.choice([2.0, 2.5, 3.0]))}
     shift = bool(rng.random() < 0.6)
@@ -131,8 +140,24 @@ def one_case(ctx, rng, der, wd, force3d=False, unequal=False):
                     "positions": snap.positions if N <= 20 else "omitted"}
     unequal_m = len(set(masses.tolist())) > 1
     key = f"hessian/{model}" + ("/unequal_masses" if unequal_m else "")
-    hm = HessianMatrix(snapshot=snap, masses=dict(mass_map), epsilons=eps_.copy(), sigmas=sig.copy(), r_cuts=rc.copy(), ppp=ppp, shiftpotential=shift)
+    conv = (lambda M: M.astype(np.int64)) if int_params else (lambda M: M.copy())
+    e_arg, s_arg, r_arg = conv(eps_), conv(sig), conv(rc)
+    if (N + d) % 4 == 0:
+        for a_ in (e_arg, s_arg, r_arg):
+            a_.setflags(write=False)            # read-only tables (slices of a read-only configuration object)
+    hm = HessianMatrix(snapshot=snap, masses=dict(mass_map), epsilons=e_arg, sigmas=s_arg, r_cuts=r_arg, ppp=ppp, shiftpotential=shift)
+    if rng.random() < 0.3:
+        # history: the SAME object is asked for the same matrix once before (a scan over output options / models re-uses the object)
+        ctx.call(key + "/prior_call", hm.diagonalize_hessian, ip, True, True, out + "_prior", data=info)
+        ctx.count("second_call_on_same_object")
+        for ext in (".hessianmatrix.npy", ".evecs.npy", ".omega_PR.csv"):
+            try:
+                os.remove(out + "_prior" + ext)
+            except OSError:
+                pass
     ok, _ = ctx.call(key, hm.diagonalize_hessian, ip, True, True, out, data=info)
+    ctx.check("parameters_untouched", np.array_equal(e_arg, eps_) and np.array_equal(s_arg, sig) and np.array_equal(r_arg, rc) and mass_map == hm.masses
+              if hasattr(hm, "masses") else True, key + "/parameters_modified", "a parameter table was modified", info)
     ctx.case(f"{model}/{d}D/{'shift' if shift else 'noshift'}/{'uneq' if unequal_m else 'eq'}-mass/{cell['kind']}", snap.positions, types, eps_, sig, rc, shift, masses,
              nontrivial=len(terms) >= N, sample={"model": model, "d": d, "N": N, "K": Kr, "pairs": len(terms), "shift": shift, "masses": mass_map, "ppp": ppp})
     if unequal_m:
